@@ -191,20 +191,26 @@ Fixpoint attach_entries (g : graph) (nh : nheap) (ah : aheap) (a : nat) (names :
                | None => attach_entries g nh ah a r
                end
   end.
+Definition attach_one (s : st) (name : string) (eps : list string) : st * outcome :=
+  let a := s_na s in
+  let s0 := mkSt (s_nh s) (upda (s_ah s) a (fun _ => mkAtt name None [] [])) (s_nn s) (S (s_na s)) (s_g s) in
+  let '(s1, oc) := add_attacker s0 a None [] [] in
+  match oc with
+  | Ok =>
+    let '(nh2, ah2) := attach_entries (s_g s1) (s_nh s1) (s_ah s1) a eps in
+    let ah3 := upda ah2 a (fun x => set_entry x (a_reached x)) in
+    (mkSt nh2 ah3 (s_nn s1) (s_na s1) (s_g s1), Ok)
+  | _ => (s1, oc)
+  end.
 Fixpoint attach_attackers (s : st) (infos : list (string * list string)) : st * outcome :=
   match infos with
   | [] => (s, Ok)
   | (name, eps) :: r =>
     if seqb name "" then (s, RGraphException)
     else
-      let a := s_na s in
-      let s0 := mkSt (s_nh s) (upda (s_ah s) a (fun _ => mkAtt name None [] [])) (s_nn s) (S (s_na s)) (s_g s) in
-      let '(s1, oc) := add_attacker s0 a None [] [] in
+      let '(s1, oc) := attach_one s name eps in
       match oc with
-      | Ok =>
-        let '(nh2, ah2) := attach_entries (s_g s1) (s_nh s1) (s_ah s1) a eps in
-        let ah3 := upda ah2 a (fun x => set_entry x (a_reached x)) in
-        attach_attackers (mkSt nh2 ah3 (s_nn s1) (s_na s1) (s_g s1)) r
+      | Ok => attach_attackers s1 r
       | _ => (s1, oc)
       end
   end.
